@@ -716,10 +716,18 @@ def _extract_param_docs(doc: str | None) -> dict[str, str]:
 
 
 def _unwrap_annotated(hint: object) -> object:
-    """Unwrap Annotated[T, ...] to T, or return hint unchanged."""
-    if get_origin(hint) is Annotated:
-        return get_args(hint)[0]
-    return hint
+    """Unwrap Annotated[T, ...] and NewType wrappers to the underlying type, or return hint unchanged.
+
+    ``_infer_arrow_type`` maps ``NewType("Colour", SomeEnum)`` to its supertype's
+    Arrow type, so the value conversion must look through the NewType as well.
+    """
+    while True:
+        if get_origin(hint) is Annotated:
+            hint = get_args(hint)[0]
+        elif hasattr(hint, "__supertype__"):
+            hint = getattr(hint, "__supertype__")  # noqa: B009
+        else:
+            return hint
 
 
 def _classify_return_type(hint: object) -> tuple[MethodType, object, bool]:
